@@ -41,6 +41,71 @@ Definition not_top (l : str) : Prop := is_top l = false.
 Definition body_lines (hdrs : list str) (ds : list entry) : list str :=
   lines (body_text hdrs 0 0 (map render_entry ds)).
 
+(* a sufficient condition for entry_plain on the fields of the documentation objects:
+   names, parameters, values, help texts contain no newline (doc texts are arbitrary) *)
+Definition opt_no_nl (v : option str) : bool :=
+  match v with Some x => no_nl x | None => true end.
+Definition method_ok (m : method) : bool :=
+  no_nl (m_name m) && forallb no_nl (m_params m) && forallb no_nl (m_types m).
+Definition attr_ok (a : attribute) : bool := no_nl (a_name a) && opt_no_nl (a_default a).
+Definition entry_fields_ok (e : entry) : bool :=
+  match e with
+  | EFunction _ name _ params _ => no_nl name && forallb no_nl params
+  | EVariable name _ _ value => no_nl name && opt_no_nl value
+  | EOption name _ value help => no_nl name && opt_no_nl value && no_nl help
+  | EGeneric name _ params => no_nl name && forallb no_nl params
+  | ECTest name _ params => no_nl name && forallb no_nl params
+  | ETest _ name _ _ _ _ => no_nl name
+  | EClass name _ _ inner ctors members attrs =>
+      no_nl name && forallb no_nl inner && forallb method_ok ctors
+      && forallb method_ok members && forallb attr_ok attrs
+  | EModule name _ => no_nl name
+  end.
+
+(* R4: the recursive reader: the directive tree by indentation *)
+Inductive skel := SDir (heading : str) (children : list skel).
+
+Fixpoint span {A : Type} (p : A -> bool) (l : list A) : list A * list A :=
+  match l with
+  | [] => ([], [])
+  | x :: r => if p x then let '(a, b) := span p r in (x :: a, b) else ([], l)
+  end.
+
+(* a line belonging to the content of a directive whose heading is at depth d *)
+Definition deeper (d : nat) (l : str) : bool := blank l || (3 * S d <=? indent_of l).
+Definition is_heading (d : nat) (l : str) : bool := startswith (indent d ++ s".. ") l.
+(* a line that does not look like a directive heading at any depth *)
+Definition inert (l : str) : bool := negb (startswith (s".. ") (drop_while is_space l)).
+
+Fixpoint read (fuel d : nat) (ls : list str) : list skel :=
+  match fuel with
+  | O => []
+  | S f =>
+      match ls with
+      | [] => []
+      | l :: r =>
+          if is_heading d l
+          then SDir (drop_while is_space l) (read f (S d) (fst (span (deeper d) r)))
+               :: read f d (snd (span (deeper d) r))
+          else read f d r
+      end
+  end.
+
+Fixpoint skel_of (e : elem) : list skel :=
+  match e with
+  | Dir n a _ b => [SDir (s".. " ++ n ++ s":: " ++ join (s",") a) (flat_map skel_of b)]
+  | _ => []
+  end.
+
+(* no paragraph line looks like a directive heading (doc texts may contain their own
+   directives; the reader would then see deeper structure) *)
+Fixpoint rsafe (e : elem) : bool :=
+  match e with
+  | Para t => forallb inert (lines t)
+  | Dir _ _ _ b => forallb rsafe b
+  | _ => true
+  end.
+
 (* ------------------------------------------------------------------ *)
 (* R0/R3: the reader partitions its input                               *)
 
@@ -228,7 +293,7 @@ Proof.
 Qed.
 
 (* MAIN R2.  no_module_in_tail (the aggregator keeps at most the leading module entry)
-   is a hypothesis here; it is proved with the aggregator facts. *)
+   is assumed here; it is proved with the aggregator facts. *)
 Theorem page_shape : forall hdrs title modname docs,
   let ds := snd (finalize title modname docs) in
   forallb entry_plain ds = true ->
@@ -293,7 +358,7 @@ Proof.
 Qed.
 
 (* ------------------------------------------------------------------ *)
-(* non-vacuity and necessity of the hypothesis                          *)
+(* non-vacuity and necessity of the side condition                       *)
 
 Definition ex_method : method :=
   {| m_name := s"meth"; m_doc := s"method doc" ++ [nl] ++ s"  second line";
@@ -352,7 +417,7 @@ Example ex_docs_shape :
   = map (fun e => block_lines [s"#"] (render_entry e)) ex_docs.
 Proof. apply (page_top_blocks [s"#"] ex_docs). apply ex_docs_plain. Qed.
 
-(* COUNTEREXAMPLE to the unconditional statement: a variable whose default value contains
+(* COUNTEREXAMPLE to the unconditional statement: a set() entry whose default value contains
    a newline (a quoted CMake argument may) yields a field whose continuation line sits
    at column 0, i.e. OUTSIDE the entry's directive: the reader sees a third block. *)
 Definition ex_bad_docs : list entry :=
@@ -371,3 +436,518 @@ Example name_newline_escapes :
      [EModule (s"m") []; EFunction false (s"f") [] [s"a" ++ [nl] ++ s"b"] false]))
   = [ s".. module:: m"; s".. function:: f(a"; s"b)" ].
 Proof. vm_compute. reflexivity. Qed.
+
+(* ------------------------------------------------------------------ *)
+(* R4: the recursive reader inverts the writer on plain elements        *)
+
+Definition rd (d : nat) (ls : list str) : list skel := read (length ls) d ls.
+
+Lemma span_app_id : forall (A : Type) (p : A -> bool) l,
+  fst (span p l) ++ snd (span p l) = l.
+Proof.
+  intros A p l. induction l as [|x r IH]; [reflexivity|].
+  cbn [span]. destruct (p x); [|reflexivity].
+  destruct (span p r) as [a b]. cbn [fst snd app] in *. rewrite IH. reflexivity.
+Qed.
+
+Lemma span_len : forall (A : Type) (p : A -> bool) l,
+  length (fst (span p l)) <= length l /\ length (snd (span p l)) <= length l.
+Proof.
+  intros A p l. pose proof (span_app_id A p l) as H.
+  apply (f_equal (@length A)) in H. rewrite app_length in H. lia.
+Qed.
+
+Lemma span_app_all : forall (A : Type) (p : A -> bool) xs ys,
+  Forall (fun x => p x = true) xs ->
+  span p (xs ++ ys) = (xs ++ fst (span p ys), snd (span p ys)).
+Proof.
+  intros A p xs ys H. induction H as [|x r Hx Hr IH].
+  - cbn [app]. destruct (span p ys); reflexivity.
+  - cbn [app span]. rewrite Hx, IH. reflexivity.
+Qed.
+
+Lemma span_fst_stop : forall (A : Type) (p : A -> bool) x r, p x = false ->
+  span p (x :: r) = ([], x :: r).
+Proof. intros A p x r H. cbn [span]. rewrite H. reflexivity. Qed.
+
+Lemma span_cons_true : forall (A : Type) (p : A -> bool) x r, p x = true ->
+  span p (x :: r) = (x :: fst (span p r), snd (span p r)).
+Proof. intros A p x r H. cbn [span]. rewrite H. destruct (span p r); reflexivity. Qed.
+
+Lemma span_fst_prefix_forall : forall (A : Type) (p : A -> bool) (Q : A -> Prop) xs ys,
+  Forall Q xs -> Forall Q (fst (span p ys)) -> Forall Q (fst (span p (xs ++ ys))).
+Proof.
+  intros A p Q xs ys H Hy. induction H as [|x r Hx Hr IH]; [exact Hy|].
+  cbn [app span]. destruct (p x); [|constructor].
+  destruct (span p (r ++ ys)) as [a b]. cbn [fst] in *. constructor; assumption.
+Qed.
+
+Lemma read_fuel : forall f1 f2 d ls, length ls <= f1 -> length ls <= f2 ->
+  read f1 d ls = read f2 d ls.
+Proof.
+  intros f1. induction f1 as [|f1 IH]; intros f2 d ls H1 H2.
+  - destruct ls; [|cbn [length] in H1; lia]. destruct f2; reflexivity.
+  - destruct ls as [|l r]; [destruct f2; reflexivity|].
+    cbn [length] in H1, H2. destruct f2 as [|f2]; [lia|]. cbn [read].
+    pose proof (span_len _ (deeper d) r) as [L1 L2].
+    destruct (is_heading d l).
+    + f_equal; [f_equal|]; apply IH; lia.
+    + apply IH; lia.
+Qed.
+
+Lemma rd_fuel : forall f d ls, length ls <= f -> read f d ls = rd d ls.
+Proof. intros f d ls H. unfold rd. apply read_fuel; [exact H | lia]. Qed.
+
+Lemma rd_nil : forall d, rd d [] = [].
+Proof. reflexivity. Qed.
+
+Lemma rd_cons_no : forall d l r, is_heading d l = false -> rd d (l :: r) = rd d r.
+Proof. intros d l r H. unfold rd. cbn [length read]. rewrite H. reflexivity. Qed.
+
+Lemma rd_cons_head : forall d l r, is_heading d l = true ->
+  rd d (l :: r) = SDir (drop_while is_space l) (rd (S d) (fst (span (deeper d) r)))
+                  :: rd d (snd (span (deeper d) r)).
+Proof.
+  intros d l r H. unfold rd at 1. cbn [length read]. rewrite H.
+  pose proof (span_len _ (deeper d) r) as [L1 L2].
+  rewrite !rd_fuel by lia. reflexivity.
+Qed.
+
+(* spaces *)
+Lemma drop_while_spaces : forall k r,
+  drop_while is_space (spaces k ++ r) = drop_while is_space r.
+Proof.
+  intros k r. induction k as [|k IH]; [reflexivity|].
+  change (spaces (S k) ++ r) with (sp :: (spaces k ++ r)). cbn [drop_while].
+  change (is_space sp) with true. cbv iota. exact IH.
+Qed.
+
+Lemma indent_of_spaces : forall k r, indent_of (spaces k ++ r) = k + indent_of r.
+Proof.
+  intros k r. unfold indent_of. induction k as [|k IH]; [reflexivity|].
+  change (spaces (S k) ++ r) with (sp :: (spaces k ++ r)). cbn [take_while].
+  change (is_space sp) with true. cbv iota. cbn [length]. rewrite IH. reflexivity.
+Qed.
+
+Lemma blank_spaces : forall k r, blank (spaces k ++ r) = blank r.
+Proof.
+  intros k r. unfold blank. induction k as [|k IH]; [reflexivity|].
+  change (spaces (S k) ++ r) with (sp :: (spaces k ++ r)). cbn [forallb].
+  change (is_space sp) with true. cbn [andb]. exact IH.
+Qed.
+
+Lemma startswith_split : forall p x, startswith p x = true -> exists r, x = p ++ r.
+Proof.
+  intros p. induction p as [|a p IH]; intros x H; [exists x; reflexivity|].
+  destruct x as [|b x]; [discriminate H|]. cbn [startswith] in H.
+  apply andb_true_iff in H. destruct H as [H1 H2]. apply N.eqb_eq in H1. subst b.
+  destruct (IH x H2) as [r Hr]. exists r. cbn [app]. congruence.
+Qed.
+
+Lemma inert_indent : forall d l, inert (indent d ++ l) = inert l.
+Proof. intros d l. unfold inert, indent. rewrite drop_while_spaces. reflexivity. Qed.
+
+Lemma heading_not_inert : forall d l, is_heading d l = true -> inert l = false.
+Proof.
+  intros d l H. unfold is_heading in H. destruct (startswith_split _ _ H) as [r Hr].
+  subst l. rewrite <- app_assoc, inert_indent. reflexivity.
+Qed.
+
+Lemma inert_not_heading : forall d l, inert l = true -> is_heading d l = false.
+Proof.
+  intros d l H. destruct (is_heading d l) eqn:E; [|reflexivity].
+  apply heading_not_inert in E. congruence.
+Qed.
+
+Lemma rd_inert_prefix : forall d xs ys, Forall (fun l => inert l = true) xs ->
+  rd d (xs ++ ys) = rd d ys.
+Proof.
+  intros d xs ys H. induction H as [|x r Hx Hr IH]; [reflexivity|].
+  cbn [app]. rewrite rd_cons_no by (apply inert_not_heading; exact Hx). exact IH.
+Qed.
+
+Lemma rd_inert_all : forall d xs, Forall (fun l => inert l = true) xs -> rd d xs = [].
+Proof.
+  intros d xs H. rewrite <- (app_nil_r xs). rewrite rd_inert_prefix by exact H. reflexivity.
+Qed.
+
+Lemma ind_ok_deeper : forall d l, ind_ok (S d) l -> deeper d l = true.
+Proof.
+  intros d l [H|H]; [subst l; reflexivity|].
+  destruct (startswith_split _ _ H) as [r Hr]. subst l. unfold deeper, indent.
+  rewrite indent_of_spaces. apply orb_true_iff. right. apply Nat.leb_le.
+  unfold indent_unit. lia.
+Qed.
+
+Lemma head_line_facts : forall d n a,
+  is_heading d (dir_head_line d n a) = true /\
+  deeper d (dir_head_line d n a) = false /\
+  drop_while is_space (dir_head_line d n a) = s".. " ++ n ++ s":: " ++ join (s",") a.
+Proof.
+  intros d n a. unfold dir_head_line, is_heading. split; [|split].
+  - rewrite (app_assoc (indent d)). apply startswith_app_self.
+  - unfold deeper, indent. rewrite blank_spaces, indent_of_spaces.
+    replace (blank (s".. " ++ n ++ s":: " ++ join (s",") a)) with false by reflexivity.
+    replace (indent_of (s".. " ++ n ++ s":: " ++ join (s",") a)) with 0 by reflexivity.
+    cbn [orb]. apply Nat.leb_gt. unfold indent_unit. lia.
+  - unfold indent. rewrite drop_while_spaces. reflexivity.
+Qed.
+
+Definition all_inert (ls : list str) : Prop := Forall (fun l => inert l = true) ls.
+(* what follows an element: the lines that a preceding directive heading at depth d
+   would still swallow as content are inert *)
+Definition tail_ok (d : nat) (more : list str) : Prop :=
+  all_inert (fst (span (deeper d) more)).
+
+Lemma tail_ok_inert : forall d more, all_inert more -> tail_ok d more.
+Proof.
+  intros d more H. unfold tail_ok, all_inert in *.
+  pose proof (span_app_id _ (deeper d) more) as E. rewrite <- E in H.
+  apply Forall_app in H. exact (proj1 H).
+Qed.
+
+Lemma dec_go_head : forall f n acc, exists c r,
+  dec_go (S f) n acc = c :: r /\ (48 <= c <= 57)%N.
+Proof.
+  intros f. induction f as [|f IH]; intros n acc.
+  - cbn [dec_go]. assert (D : (48 <= digit_char (n mod 10) <= 57)%N).
+    { unfold digit_char. pose proof (Nat.mod_upper_bound n 10). lia. }
+    destruct (n / 10 =? 0); eexists _, _; split; try reflexivity; exact D.
+  - change (dec_go (S (S f)) n acc)
+      with (let acc' := digit_char (n mod 10) :: acc in
+            if n / 10 =? 0 then acc' else dec_go (S f) (n / 10) acc').
+    cbv zeta. destruct (n / 10 =? 0).
+    + eexists _, _. split; [reflexivity|]. unfold digit_char.
+      pose proof (Nat.mod_upper_bound n 10). lia.
+    + apply IH.
+Qed.
+
+Lemma inert_enum_line : forall d k x, inert (enum_line d k x) = true.
+Proof.
+  intros d k x. unfold enum_line. rewrite inert_indent. unfold dec_of_nat.
+  destruct (dec_go_head k k []) as [c [r [E Hc]]]. rewrite E. cbn [app].
+  unfold inert. cbn [drop_while]. unfold is_space.
+  destruct (N.eqb_spec c 32) as [E1|E1]; [lia|].
+  change (s".. ") with [46%N; 46%N; 32%N]. cbn [startswith].
+  destruct (N.eqb_spec 46 c) as [E2|E2]; [lia | reflexivity].
+Qed.
+
+(* every line of a plain non-directive element is inert *)
+Lemma nondir_inert : forall hdrs lvl d e, plain e = true -> rsafe e = true ->
+  (forall n a o b, e <> Dir n a o b) ->
+  all_inert (lines (elem_text hdrs lvl d e)).
+Proof.
+  intros hdrs lvl d e Hp Hs Hnd. unfold all_inert.
+  destruct e as [t|n t|en items|l x|n a o b|t b]; try discriminate Hp.
+  - cbn [elem_text]. rewrite para_lines. cbn [rsafe] in Hs. rewrite forallb_forall in Hs.
+    apply Forall_forall. intros y Hy. apply in_map_iff in Hy. destruct Hy as [z [Hz Hin]].
+    subst y. rewrite inert_indent. exact (Hs z Hin).
+  - cbn [plain] in Hp. apply andb_true_iff in Hp. destruct Hp as [Hn Ht].
+    cbn [elem_text]. rewrite field_lines by assumption.
+    constructor; [reflexivity|]. constructor; [|constructor].
+    unfold field_line. rewrite inert_indent. reflexivity.
+  - cbn [plain] in Hp. cbn [elem_text]. destruct en.
+    + rewrite enum_lines_exact by assumption. constructor; [reflexivity|].
+      apply Forall_app. split; [|constructor; [reflexivity | constructor]].
+      unfold enum_lines. apply Forall_forall. intros y Hy. apply in_map_iff in Hy.
+      destruct Hy as [z [Hz _]]. subst y. apply inert_enum_line.
+    + rewrite bullet_lines by assumption. constructor; [reflexivity|].
+      apply Forall_app. split; [|constructor; [reflexivity | constructor]].
+      apply Forall_forall. intros y Hy. apply in_map_iff in Hy.
+      destruct Hy as [z [Hz _]]. subst y. unfold bullet_line. rewrite inert_indent.
+      reflexivity.
+  - exfalso. exact (Hnd _ _ _ _ eq_refl).
+Qed.
+
+Definition reads_back (hdrs : list str) (e : elem) : Prop :=
+  plain e = true -> rsafe e = true ->
+  forall lvl d more, tail_ok d more ->
+    rd d (lines (elem_text hdrs lvl d e) ++ more) = skel_of e ++ rd d more /\
+    tail_ok d (lines (elem_text hdrs lvl d e) ++ more).
+
+Lemma reads_back_body : forall hdrs b, Forall (reads_back hdrs) b ->
+  forallb plain b = true -> forallb rsafe b = true ->
+  forall lvl d more, tail_ok d more ->
+    rd d (concat (map (fun x => lines (elem_text hdrs lvl d x)) b) ++ more)
+      = flat_map skel_of b ++ rd d more /\
+    tail_ok d (concat (map (fun x => lines (elem_text hdrs lvl d x)) b) ++ more).
+Proof.
+  intros hdrs b H. induction H as [|x r Hx Hr IH]; intros Hp Hs lvl d more Hm.
+  - cbn [map concat flat_map app]. split; [reflexivity | exact Hm].
+  - cbn [forallb] in Hp, Hs. apply andb_true_iff in Hp. apply andb_true_iff in Hs.
+    destruct Hp as [Hp1 Hp2]. destruct Hs as [Hs1 Hs2].
+    destruct (IH Hp2 Hs2 lvl d more Hm) as [R1 T1].
+    cbn [map concat flat_map]. rewrite <- !app_assoc.
+    destruct (Hx Hp1 Hs1 lvl d _ T1) as [R2 T2]. split; [|exact T2].
+    rewrite R2, R1. reflexivity.
+Qed.
+
+Lemma reads_back_all : forall hdrs e, reads_back hdrs e.
+Proof.
+  intros hdrs e.
+  induction e as [t|n t|en items|l x|n a o b IH|t b IH] using elem_ind2;
+    intros Hp Hs lvl d more Hm; try discriminate Hp.
+  1-3: (split;
+        [ rewrite rd_inert_prefix by (apply nondir_inert; [exact Hp | exact Hs | discriminate]);
+          reflexivity
+        | apply span_fst_prefix_forall;
+          [apply nondir_inert; [exact Hp | exact Hs | discriminate] | exact Hm] ]).
+  destruct (dir_content_deeper hdrs lvl d n a o b Hp) as [E D]. rewrite E.
+  cbn [skipn] in D. rewrite E in D. cbn [skipn] in D.
+  destruct (head_line_facts d n a) as [HH [HD HS]].
+  cbn [plain] in Hp. apply andb_true_iff in Hp. destruct Hp as [Hp Hb].
+  apply andb_true_iff in Hp. destruct Hp as [Hp Ho]. cbn [rsafe] in Hs.
+  cbn [app]. split.
+  - rewrite rd_cons_no by (apply inert_not_heading; reflexivity).
+    rewrite rd_cons_head by exact HH.
+    rewrite span_app_all
+      by (eapply Forall_impl; [|exact D]; intros l0 Hl0; exact (ind_ok_deeper _ _ Hl0)).
+    cbn [fst snd skel_of app]. rewrite HS. f_equal; [f_equal|].
+    + unfold dir_rest_lines. rewrite <- !app_assoc.
+      rewrite rd_inert_prefix.
+      2:{ apply Forall_concat_map. intros x Hx. rewrite forallb_forall in Ho.
+          rewrite (option_lines _ _ (Ho x Hx)). constructor; [|constructor].
+          unfold field_line. rewrite inert_indent. reflexivity. }
+      rewrite rd_inert_prefix by (destruct b; [constructor | constructor; [reflexivity|constructor]]).
+      assert (Ht : tail_ok (S d) ([[]] ++ fst (span (deeper d) more))).
+      { apply tail_ok_inert. constructor; [reflexivity | exact Hm]. }
+      destruct (reads_back_body hdrs b IH Hb Hs 0 (S d) _ Ht) as [R _].
+      refine (eq_trans R _).
+      rewrite rd_inert_all by (constructor; [reflexivity | exact Hm]).
+      apply app_nil_r.
+    + rewrite <- (span_app_id _ (deeper d) more) at 2.
+      rewrite rd_inert_prefix by exact Hm. reflexivity.
+  - unfold tail_ok. rewrite span_cons_true by reflexivity.
+    rewrite span_fst_stop by exact HD. cbn [fst]. constructor; [reflexivity | constructor].
+Qed.
+
+(* MAIN R4 *)
+Theorem read_inverts_writer : forall hdrs lvl d e fuel,
+  plain e = true -> rsafe e = true ->
+  length (lines (elem_text hdrs lvl d e)) <= fuel ->
+  read fuel d (lines (elem_text hdrs lvl d e)) = skel_of e.
+Proof.
+  intros hdrs lvl d e fuel Hp Hs Hf. rewrite rd_fuel by exact Hf.
+  assert (Ht : tail_ok d []) by constructor.
+  destruct (reads_back_all hdrs e Hp Hs lvl d [] Ht) as [R _].
+  rewrite !app_nil_r in R. exact R.
+Qed.
+
+(* the whole page body: the skeletons of the entries, as siblings, in order *)
+Theorem read_page_body : forall hdrs ds fuel,
+  forallb entry_plain ds = true -> forallb (fun e => rsafe (render_entry e)) ds = true ->
+  length (body_lines hdrs ds) <= fuel ->
+  read fuel 0 (body_lines hdrs ds) = flat_map (fun e => skel_of (render_entry e)) ds.
+Proof.
+  intros hdrs ds fuel Hp Hs Hf. rewrite rd_fuel by exact Hf. unfold body_lines.
+  rewrite lines_body_text.
+  assert (Ht : tail_ok 0 [[]]) by (apply tail_ok_inert; constructor; [reflexivity|constructor]).
+  assert (HF : Forall (reads_back hdrs) (map render_entry ds)).
+  { apply Forall_forall. intros x _. apply reads_back_all. }
+  assert (Hp' : forallb plain (map render_entry ds) = true).
+  { rewrite forallb_forall in *. intros x Hx. apply in_map_iff in Hx.
+    destruct Hx as [y [Hy Hin]]. subst x. exact (Hp y Hin). }
+  assert (Hs' : forallb rsafe (map render_entry ds) = true).
+  { rewrite forallb_forall in *. intros x Hx. apply in_map_iff in Hx.
+    destruct Hx as [y [Hy Hin]]. subst x. exact (Hs y Hin). }
+  destruct (reads_back_body hdrs _ HF Hp' Hs' 0 0 [[]] Ht) as [R _].
+  rewrite R. rewrite rd_inert_all by (constructor; [reflexivity|constructor]).
+  rewrite app_nil_r. rewrite flat_map_concat_map, map_map, <- flat_map_concat_map.
+  reflexivity.
+Qed.
+
+Example ex_nested_read :
+  plain ex_nested = true /\ rsafe ex_nested = true /\
+  read 100 0 (lines (elem_text [s"#"] 0 0 ex_nested))
+  = [SDir (s".. a:: x,y") [SDir (s".. b:: ") [SDir (s".. c:: z") []]]].
+Proof. vm_compute. repeat split; reflexivity. Qed.
+
+(* the side condition rsafe matters: a doc text containing its own directive is read as
+   deeper structure (here the reader sees a note the writer API never created) *)
+Example read_sees_doc_directives :
+  read 100 0 (body_lines [s"#"] ex_docs) <>
+  flat_map (fun e => skel_of (render_entry e)) ex_docs.
+Proof. vm_compute. discriminate. Qed.
+
+(* ------------------------------------------------------------------ *)
+(* which entries are plain: a condition on the fields of the entry      *)
+
+Lemma no_nl_signature : forall name ps, no_nl name = true -> forallb no_nl ps = true ->
+  no_nl (signature name ps) = true.
+Proof.
+  intros name ps Hn Hp. unfold signature.
+  rewrite !no_nl_app, Hn, (no_nl_join (s" ") ps eq_refl Hp). reflexivity.
+Qed.
+
+Lemma plain_method_fields : forall doc types params,
+  forallb no_nl types = true -> forallb no_nl params = true ->
+  forallb plain (method_fields doc types params) = true.
+Proof.
+  intros doc types. induction types as [|t ts IH]; intros params Ht Hp; [reflexivity|].
+  destruct params as [|p ps]; [reflexivity|].
+  cbn [forallb] in Ht, Hp. apply andb_true_iff in Ht. apply andb_true_iff in Hp.
+  destruct Ht as [Ht1 Ht2]. destruct Hp as [Hp1 Hp2].
+  cbn [method_fields]. rewrite !forallb_app, (IH ps Ht2 Hp2), andb_true_r.
+  apply andb_true_iff. split.
+  - destruct (contains _ doc); [reflexivity|]. cbn [forallb plain].
+    rewrite no_nl_app, Hp1. reflexivity.
+  - destruct (contains _ doc); [reflexivity|]. cbn [forallb plain].
+    rewrite no_nl_app, Hp1, Ht1. reflexivity.
+Qed.
+
+Lemma plain_render_method : forall m, method_ok m = true -> plain (render_method m) = true.
+Proof.
+  intros m H. unfold method_ok in H. apply andb_true_iff in H. destruct H as [H Ht].
+  apply andb_true_iff in H. destruct H as [Hn Hp].
+  unfold render_method. cbn [plain forallb].
+  rewrite !forallb_app, (plain_method_fields _ _ _ Ht Hp).
+  rewrite !no_nl_app, Hn, (no_nl_join (s", ") _ eq_refl Hp).
+  destruct (mem_str (s"args") (m_types m)); destruct (m_macro m); reflexivity.
+Qed.
+
+Lemma plain_render_attribute : forall a, attr_ok a = true -> plain (render_attribute a) = true.
+Proof.
+  intros a H. unfold attr_ok in H. apply andb_true_iff in H. destruct H as [Hn Hd].
+  unfold render_attribute.
+  destruct (a_default a) as [v|]; cbn [opt_no_nl] in Hd; cbn [plain forallb]; rewrite Hn;
+    unfold opt_ok; cbn [fst snd]; [rewrite Hd|]; reflexivity.
+Qed.
+
+Lemma forallb_map_plain : forall (A : Type) (ok : A -> bool) (r : A -> elem) l,
+  (forall x, ok x = true -> plain (r x) = true) -> forallb ok l = true ->
+  forallb plain (map r l) = true.
+Proof.
+  intros A ok r l H Hl. rewrite forallb_forall in *. intros x Hx.
+  apply in_map_iff in Hx. destruct Hx as [y [Hy Hin]]. subst x. apply H. exact (Hl y Hin).
+Qed.
+
+Theorem entry_fields_ok_plain : forall e, entry_fields_ok e = true -> entry_plain e = true.
+Proof.
+  intros e H. unfold entry_plain.
+  destruct e as [mac name doc params kw|name doc ty value|name doc value help
+                |name doc params|name doc params|sec name doc xf params mac
+                |name doc supers inner ctors members attrs|name doc];
+    cbn [entry_fields_ok] in H.
+  - apply andb_true_iff in H. destruct H as [Hn Hp].
+    assert (Hps : forallb no_nl (if kw then params ++ [kwargs_lit] else params) = true).
+    { destruct kw; [|exact Hp]. rewrite forallb_app, Hp. reflexivity. }
+    cbn [render_entry plain forallb]. rewrite (no_nl_signature _ _ Hn Hps).
+    destruct mac; reflexivity.
+  - apply andb_true_iff in H. destruct H as [Hn Hv].
+    cbn [render_entry plain forallb]. rewrite Hn.
+    destruct value as [v|]; cbn [opt_no_nl] in Hv; [rewrite Hv|]; destruct ty; reflexivity.
+  - apply andb_true_iff in H. destruct H as [H Hh]. apply andb_true_iff in H.
+    destruct H as [Hn Hv]. cbn [render_entry plain forallb]. rewrite Hn, Hh.
+    destruct value as [v|]; cbn [opt_no_nl] in Hv; [rewrite Hv|]; reflexivity.
+  - apply andb_true_iff in H. destruct H as [Hn Hp].
+    cbn [render_entry plain forallb]. rewrite (no_nl_signature _ _ Hn Hp). reflexivity.
+  - apply andb_true_iff in H. destruct H as [Hn Hp].
+    cbn [render_entry plain forallb]. rewrite (no_nl_signature _ _ Hn Hp). reflexivity.
+  - cbn [render_entry plain forallb]. rewrite !no_nl_app, H.
+    destruct xf; destruct sec; reflexivity.
+  - apply andb_true_iff in H. destruct H as [H Ha]. apply andb_true_iff in H.
+    destruct H as [H Hm]. apply andb_true_iff in H. destruct H as [H Hc].
+    apply andb_true_iff in H. destruct H as [Hn Hi].
+    cbn [render_entry plain forallb]. rewrite Hn. rewrite !forallb_app.
+    cbn [andb].
+    assert (Xc : forallb plain (match ctors with
+                                | [] => []
+                                | _ :: _ => Para (s"**Additional Constructors**")
+                                            :: map render_method ctors end) = true).
+    { destruct ctors; [reflexivity|]. cbn [forallb plain andb].
+      apply (forallb_map_plain _ method_ok); [apply plain_render_method | exact Hc]. }
+    assert (Xm : forallb plain (match members with
+                                | [] => []
+                                | _ :: _ => Para (s"**Methods**") :: map render_method members
+                                end) = true).
+    { destruct members; [reflexivity|]. cbn [forallb plain andb].
+      apply (forallb_map_plain _ method_ok); [apply plain_render_method | exact Hm]. }
+    assert (Xa : forallb plain (match attrs with
+                                | [] => []
+                                | _ :: _ => Para (s"**Attributes**") :: map render_attribute attrs
+                                end) = true).
+    { destruct attrs; [reflexivity|]. cbn [forallb plain andb].
+      apply (forallb_map_plain _ attr_ok); [apply plain_render_attribute | exact Ha]. }
+    rewrite Xc, Xm, Xa.
+    assert (Xi : forallb plain (match inner with
+                                | [] => []
+                                | _ :: _ => [Para (s"**Inner classes**");
+                                             RList false (map (interpreted_text (s"class")) inner)]
+                                end) = true).
+    { destruct inner as [|i0 ir]; [reflexivity|]. cbn [forallb plain andb].
+      rewrite andb_true_r. rewrite forallb_forall in *. intros x Hx.
+      apply in_map_iff in Hx. destruct Hx as [y [Hy Hin]]. subst x. unfold interpreted_text.
+      rewrite !no_nl_app, (Hi y Hin). reflexivity. }
+    rewrite Xi. destruct supers; reflexivity.
+  - cbn [render_entry plain forallb]. rewrite H. destruct doc; reflexivity.
+Qed.
+
+Example ex_docs_fields_ok : forallb entry_fields_ok ex_docs = true.
+Proof. vm_compute. reflexivity. Qed.
+
+(* non-vacuity of page_shape, nested_content_owned and read_page_body *)
+Example ex_docs_page_shape :
+  length (filter is_module_block (top_blocks (body_lines [s"#"] ex_docs))) = 1 /\
+  is_module_block (hd [] (top_blocks (body_lines [s"#"] ex_docs))) = true.
+Proof.
+  destruct (page_shape [s"#"] (s"title") (s"m") ex_docs) as [mn [md [rest [E [_ [H1 H2]]]]]].
+  - vm_compute. reflexivity.
+  - vm_compute. reflexivity.
+  - change (snd (finalize (s"title") (s"m") ex_docs)) with ex_docs in H1, H2.
+    split; assumption.
+Qed.
+
+Example ex_docs_owned :
+  exists heading,
+    nth_error (top_blocks (body_lines [s"#"] ex_docs)) 3
+      = Some (heading :: skipn 2 (lines (elem_text [s"#"] 0 0 (render_entry (nth 3 ex_docs (EModule [] []))))) ++ [[]])
+    /\ heading = s".. py:class:: C".
+Proof.
+  destruct (nested_content_owned [s"#"] ex_docs 3 _ ex_docs_plain eq_refl) as [h [H1 [H2 _]]].
+  exists h. split; [exact H1|]. rewrite <- H2. vm_compute. reflexivity.
+Qed.
+
+Definition ex_safe_docs : list entry :=
+  [ EModule (s"mod") (s"Module doc");
+    EFunction true (s"f") (s"Doc line1" ++ [nl] ++ s"   own indent") [s"a"] false;
+    EClass (s"C") (s"class doc") [] [s"I"] [] [ex_method] [ex_attr] ].
+
+Example ex_safe_docs_read :
+  forallb entry_plain ex_safe_docs = true /\
+  forallb (fun e => rsafe (render_entry e)) ex_safe_docs = true /\
+  read (length (body_lines [s"#"] ex_safe_docs)) 0 (body_lines [s"#"] ex_safe_docs)
+  = [ SDir (s".. module:: mod") [];
+      SDir (s".. function:: f(a)")
+        [SDir (s".. note:: This is a macro, and so does not introduce a new scope.") []];
+      SDir (s".. py:class:: C")
+        [SDir (s".. py:method:: meth(self, n[, ...])")
+           [SDir (s".. note:: This member is a macro and so does not introduce a new scope") []];
+         SDir (s".. py:attribute:: attr") []] ].
+Proof. vm_compute. repeat split; reflexivity. Qed.
+
+(* ==== MAIN THEOREMS ====
+   R0/R3  blocks_partition preamble_no_top block_one_top block_top_count
+   R1     render_entry_is_dir page_top_blocks page_lines page_after_frame
+          entry_fields_ok_plain (a sufficient condition on the entry fields)
+          (counterexamples without the side condition: page_top_blocks_refuted
+           name_newline_escapes)
+   R2     finalize_head_module page_shape
+   R3     nested_content_owned page_blocks_partition
+   R4     read_inverts_writer read_page_body
+          (necessity of rsafe: read_sees_doc_directives)
+*)
+Print Assumptions blocks_partition.
+Print Assumptions preamble_no_top.
+Print Assumptions block_one_top.
+Print Assumptions block_top_count.
+Print Assumptions render_entry_is_dir.
+Print Assumptions page_top_blocks.
+Print Assumptions page_lines.
+Print Assumptions page_after_frame.
+Print Assumptions entry_fields_ok_plain.
+Print Assumptions finalize_head_module.
+Print Assumptions page_shape.
+Print Assumptions nested_content_owned.
+Print Assumptions page_blocks_partition.
+Print Assumptions read_inverts_writer.
+Print Assumptions read_page_body.
